@@ -108,6 +108,12 @@ CLAIMS = {
          "with goroutine counting.",
          "Coq proof over naming/sweep/intake file-system model + sandbox-diff correspondence", "DESIGN.md §3 C20",
          "the real file system, database handles and goroutines are runtime objects: exercised (directory diff, LOCK reuse, goroutine count), not proved; failures inside the directory swap are outside the modelled outcomes."),
+ "C17": ("Coq theorems C17_allocation_bound (for every document, any number of entries — indeed every byte stream — each allocation request "
+         "of the reader is at most 81 937 bytes, a constant from the source) and C17_streamed_in_order (entries reach the consumer one by one, "
+         "in order, as they are read); the live heap of a child process is sampled while a real validator with disk storage loads CRLs of "
+         "20 000 and 200 000 (thorough: 2 000 000) entries from file and HTTP, DER and PEM.",
+         "Coq proof of a constant allocation bound + heap-growth measurement in a child process", "DESIGN.md §3 C17",
+         "the Go heap, garbage collector, LevelDB memtables and the HTTP client are runtime: the model shows only that the reader asks for bounded memory and retains nothing; the end-to-end bound is measured, not proved."),
  "C03": ("Coq theorems C03_table/C03_enabled/C03_iff/C03_effects over a model whose mode table, enable predicates and "
          "VerifyClientCertificate stage list are regenerated from the Go source on every run; plus an exhaustive 1536-cell "
          "table of real handshakes evaluated against the model (vm_compute) and against the property's own wording.",
